@@ -246,6 +246,8 @@ func (u *Unit) libraryCall(c *ast.CallExpr, fun ast.Expr, env *Env) ([]Outcome, 
 		env.assume(Not(u.untyped(nv)))
 		el := u.relem(env, nv)
 		env.assume(Same(u.rtype(el), t.Term))
+		u.D.Fun("ptrto", SInt, SInt)
+		env.assume(Same(u.rtype(nv), App("ptrto", SInt, t.Term)))
 		env.assume(u.settable(el))
 		nc := u.D.Fresh("clk", SInt)
 		env.assume(Same(nc, add(env.clock, IntLit(1))))
@@ -458,7 +460,12 @@ func (u *Unit) relem(env *Env, v Term) Term {
 	// Elem of a nil pointer is the zero Value
 	u.D.Axiom("relem-nil", Forall([]Term{x}, Imp(And(Same(App("rkind", SInt, x), IntLit(kPtr)), App("nilref", SBool, x)), App("untyped", SBool, App("relem", SVal, x))), []Term{App("relem", SVal, x)}).S)
 	u.D.Axiom("relem-nonnil", Forall([]Term{x}, Imp(And(Same(App("rkind", SInt, x), IntLit(kPtr)), Not(App("nilref", SBool, x))), Not(App("untyped", SBool, App("relem", SVal, x)))), []Term{App("relem", SVal, x)}).S)
-	u.D.Trust("reflect: Elem/Indirect of a nil pointer is the zero Value; of a non-nil pointer a valid Value")
+	u.D.Fun("ptrto", SInt, SInt)
+	u.rtype(v)
+	u.D.Axiom("relem-ptrtype", Forall([]Term{x}, Imp(And(Same(App("rkind", SInt, x), IntLit(kPtr)), Not(App("nilref", SBool, x))), Same(App("rtype", SInt, x), App("ptrto", SInt, App("rtype", SInt, App("relem", SVal, x))))), []Term{App("relem", SVal, x)}).S)
+	u.settable(v)
+	u.D.Axiom("relem-settable", Forall([]Term{x}, Imp(And(Same(App("rkind", SInt, x), IntLit(kPtr)), Not(App("nilref", SBool, x))), App("settable", SBool, App("relem", SVal, x))), []Term{App("relem", SVal, x)}).S)
+	u.D.Trust("reflect: Elem/Indirect of a nil pointer is the zero Value; of a non-nil pointer a valid, settable Value")
 	return App("relem", SVal, v)
 }
 
